@@ -136,6 +136,8 @@ def run_verus_unit(prop, unit, workdir, out, tier, known):
         sites = ' | '.join('%s: %s' % (l[0], l[1]) for l in fl['labels'] if l[1])
         v = {'obligation': name, 'unit': unit, 'fn': reg, 'message': fl['message'], 'clause': clause,
              'sites': sites, 'rendered': fl['rendered'], 'backend': 'verus', 'cex': None}
+        if any(x['obligation'] == name for x in out.violations + out.known):
+            continue
         k = match_known(known, prop, name, sites + ' ' + clause)
         if k:
             v['known'] = k
